@@ -336,6 +336,41 @@ class VolAdjustment(FunctionContract):
                 "central-cell-is-the-integration-range-for-h<=2": Implies(And(Not(fv), h <= 2), result * result == MU2(-h / 2, h / 2))}
 
 
+def _vol_adjustment_replay(h):
+    from contracts import battery
+    from rpylib.process.markovchain.markovchain import vol_adjustment
+    from scipy.integrate import quad
+    m = battery.models(("cgmy",))["cgmy"]
+    nu = m.levy_triplet.nu
+    got = float(vol_adjustment(m, h)) ** 2
+    f = lambda x: x * x * float(nu(x))
+    want = quad(f, -h / 2, 0, limit=200)[0] + quad(f, 0, h / 2, limit=200)[0]
+    return (abs(got - want) > 1e-7 * max(1.0, abs(want)), {"model": "CGMY y=1.1", "h": h, "added_variance": got, "variance_of_the_jumps_inside_the_central_cell": want})
+
+
+VolAdjustment.replay = lambda self, model, clause, case: _vol_adjustment_replay(0.5)
+
+
+class VolAdjustmentWideCell(Lemma):
+    """the property's clause read literally for a step h > 2 (central cell wider than the cut-off radius 1 of the
+    compensator): the variance of ALL jumps inside the central cell (-h/2, h/2) is added.  The code integrates over [-1, 1]."""
+    prop = "C04"
+    name = "property:central-cell-variance[h>2]"
+
+    def prove(self, vc, case):
+        hook_measure_ext(vc.interp, fv=True)
+        basic_axioms(vc)
+        h = vc.real("h")
+        vc.assume(h > 2)
+        vc.ghost["fv"] = False
+        model = vc.obj(LM + "LevyModel", levy_triplet=vc.obj(LM + "LevyTriplet", nu=mu_measure(vc)))
+        r = vc.call(MC + "vol_adjustment", model=model, h=h)
+        vc.check(self.name + "::variance-of-all-jumps-inside-the-central-cell-is-added", r * r == MU2(-h / 2, h / 2))
+
+    def replay(self, model, clause, case):
+        return _vol_adjustment_replay(3.0)
+
+
 class VolAdjustmentModular(VolAdjustment):
     def modular_result(self, vc, **kw):
         r = vc.fresh("vol_adj", "r")
@@ -784,7 +819,7 @@ class CopulaMarginMean(Lemma):
         return (abs(chain - mean) > 1e-6, {"margins": "HEM (finite variation) + CGMY y=1.3", "HEM_margin_chain_mean": chain, "HEM_truncated_mean": float(mean)})
 
 
-UNITS = [ComputeMuH(), Representations(), Initialisation(), MeanIdentity(), VolAdjustment(), ChainConstructor(), CopulaInitialisation(), CopulaChainConstructor(), CopulaDiffusionMatrix(), CopulaMarginMean()]
+UNITS = [ComputeMuH(), Representations(), Initialisation(), MeanIdentity(), VolAdjustment(), VolAdjustmentWideCell(), ChainConstructor(), CopulaInitialisation(), CopulaChainConstructor(), CopulaDiffusionMatrix(), CopulaMarginMean()]
 ASSUMPTIONS = ["A1: floats are mathematical reals", "A6: integrate_against_x / xx are additive interval functions of a measure (C09)",
                "the first-moment integrals K, T are finite where a representation needs them (as the library assumes)"]
 TRUSTED_BASE = ["z3 5.1 (LRA/NRA + arrays + uninterpreted functions)", "pyvc interpreter + numpy models"]
